@@ -17,6 +17,7 @@ YF(b) == [k |-> "yf", b |-> b, then |-> ""]
 YFRet(b) == [k |-> "yf", b |-> b, then |-> "ret"]          \* r = yield from T; log r; return r
 YFUnpack(b) == [k |-> "yf", b |-> b, then |-> "unpack"]    \* q, r = yield from T; log [q, r]
 RetV(val) == [k |-> "retv", val |-> val]
+RStop(v) == [k |-> "rstop", v |-> v]                        \* raise StopIteration(v)
 
 Templates == <<
   [name |-> "plain",            ss |-> << L(1), Y(10), L(2), Y(11), L(3) >>],
@@ -53,7 +54,15 @@ Templates == <<
   [name |-> "unpack_pair",      ss |-> << YFUnpack(17), L(12) >>],
   [name |-> "unpack_list",      ss |-> << YFUnpack(19), L(13) >>],
   [name |-> "unpack_pair_after_hop", ss |-> << YFUnpack(22), L(14) >>],
-  [name |-> "unpack_nested_tuple", ss |-> << YFUnpack(18), L(15) >>]
+  [name |-> "unpack_nested_tuple", ss |-> << YFUnpack(18), L(15) >>],
+  \* 34..38: the generator ends by RAISING StopIteration(v) itself (Python 3.4: that is how a generator ends, the value
+  \* is what an enclosing yield from evaluates to) - the exception has travelled through Python code before the
+  \* delegating generator sees it
+  [name |-> "rstop_after_yield", ss |-> << Y(110), RStop(8) >>],
+  [name |-> "yf1_rstop",        ss |-> << YFRet(34) >>],
+  [name |-> "yf2_rstop",        ss |-> << YFRet(35) >>],
+  [name |-> "rstop_in_try_finally", ss |-> << TryF(<< Y(111), RStop(6) >>, << L(16) >>) >>],
+  [name |-> "yf1_rstop_try",    ss |-> << YFRet(37), L(17) >>]
 >>
 B == [i \in 1..Len(Templates) |-> Templates[i].ss]
 BNames == [i \in 1..Len(Templates) |-> Templates[i].name]
